@@ -200,26 +200,41 @@ def newDate (v : FV) : DateObj := zeroDateObj.set v
 /-- timeToEpoch (l.122): float64(time.UnixMilli()) -/
 def timeToEpoch (t : GoTime) : FV := ofInt (goUnixMilli t)
 
-/-- the last two statements of newDateTime (l.219–220) on converted fields:
-    time.Date(year, month+1, day, hour, minute, second, ms*1000*1000, UTC).UnixMilli() -/
-def dateCore (year month day hour minute second ms : Int) : Int :=
-  goUnixMilli (goDate year (month + 1) day hour minute second (ms * 1000000))
+/-- time.Date(year, month, day, hour, minute, second + ms/1000, ms%1000*1000*1000, UTC): the call shape of
+    newDateTime and ecmaTime.goTime (Go `/` and `%` truncate) -/
+def goDateMs (year month day hour minute second ms : Int) : GoTime :=
+  goDate year month day hour minute (second + goDiv ms 1000) (goMod ms 1000 * 1000000)
 
-/-- newDateTime (l.166), the ≥2-argument branch, location with offset 0.
-    Result: `none` = NaN, `some ms` = float64(ms). -/
+/-- the last statements of newDateTime on converted fields: time.Date(…).UnixMilli() -/
+def dateCore (year month day hour minute second ms : Int) : Int :=
+  goUnixMilli (goDateMs year (month + 1) day hour minute second ms)
+
+/-- an integer constant as a double (all constants used are below 2^53·16 and exactly representable) -/
+def fvC (n : Nat) : FV := .fin false n 0
+
+/-- dateFieldsTooLarge: one field alone spans more than 1e9 days -/
+def tooLarge (year month day hour minute second ms : FV) : Bool :=
+  lt (fvC 2500000) (abs year) || lt (fvC 25000000) (abs month) || lt (fvC 1000000000) (abs day) ||
+  lt (fvC 24000000000) (abs hour) || lt (fvC 1440000000000) (abs minute) ||
+  lt (fvC 86400000000000) (abs second) || lt (fvC 86400000000000000) (abs ms)
+
+/-- the tail of newDateTime once all seven fields are picked and finite: two-digit years, the too-large guard,
+    time.Date, TimeClip.  Result: `none` = NaN, `some ms` = float64(ms). -/
+def newDateTimeFields (year month day hour minute second ms : FV) : Num :=
+  let integer := trunc year
+  let year := if le zero integer && le integer (.fin false 99 0) then add (.fin false 1900 0) integer else year
+  if tooLarge year month day hour minute second ms then none else
+  let um := dateCore (C05.goInt64 year) (C05.goInt64 month) (C05.goInt64 day) (C05.goInt64 hour)
+             (C05.goInt64 minute) (C05.goInt64 second) (C05.goInt64 ms)
+  if beyondMax (ofInt um) then none else some um          -- epoch := timeToEpoch(time); TimeClip
+
+/-- newDateTime, the ≥2-argument branch, location with offset 0: every supplied argument is picked first,
+    then a NaN/±Infinity among them gives NaN. -/
 def newDateTime (args : List FV) : Num :=
-  let pick (i : Nat) (dflt : FV) : Option FV :=
-    match args[i]? with
-    | none => some dflt
-    | some x => if isNaN x || isInf x then none else some x
-  match pick 0 (.fin false 1900 0), pick 1 zero, pick 2 one, pick 3 zero, pick 4 zero, pick 5 zero, pick 6 zero with
-  | some year, some month, some day, some hour, some minute, some second, some ms =>
-    let integer := trunc year
-    let year := if le zero integer && le integer (.fin false 99 0) then add (.fin false 1900 0) integer else year
-    let um := dateCore (C05.goInt64 year) (C05.goInt64 month) (C05.goInt64 day) (C05.goInt64 hour)
-               (C05.goInt64 minute) (C05.goInt64 second) (C05.goInt64 ms)
-    if beyondMax (ofInt um) then none else some um          -- epoch := timeToEpoch(time); TimeClip
-  | _, _, _, _, _, _, _ => none
+  let pick (i : Nat) (dflt : FV) : FV := (args[i]?).getD dflt
+  let fields := [pick 0 (.fin false 1900 0), pick 1 zero, pick 2 one, pick 3 zero, pick 4 zero, pick 5 zero, pick 6 zero]
+  if fields.any (fun x => isNaN x || isInf x) then none
+  else newDateTimeFields (pick 0 (.fin false 1900 0)) (pick 1 zero) (pick 2 one) (pick 3 zero) (pick 4 zero) (pick 5 zero) (pick 6 zero)
 
 -- ---------------------------------------------------------------- builtin_date.go getters
 
@@ -252,9 +267,15 @@ def newEcmaTime (t : GoTime) : EcmaTime :=
   { year := goYear t, month := goMonth t - 1, day := goDay t, hour := goHour t, minute := goMinute t,
     second := goSecond t, millisecond := goDiv t.nsec 1000000 }
 
-/-- ecmaTime.goTime (l.48) -/
+/-- ecmaTime.goTime without its guard -/
+def EcmaTime.goTimeCore (e : EcmaTime) : GoTime :=
+  goDateMs e.year (e.month + 1) e.day e.hour e.minute e.second e.millisecond
+
+/-- ecmaTime.goTime: fields too large → Time.UnixMilli(2·maxTimeValue), which Set turns into an invalid date -/
 def EcmaTime.goTime (e : EcmaTime) : GoTime :=
-  goDate e.year (e.month + 1) e.day e.hour e.minute e.second (e.millisecond * 1000000)
+  if tooLarge (ofInt e.year) (ofInt e.month) (ofInt e.day) (ofInt e.hour) (ofInt e.minute) (ofInt e.second) (ofInt e.millisecond)
+  then ⟨17280000000000, 0⟩
+  else e.goTimeCore
 
 /-- Value.number (value_number.go l.149) on a float64 Value, reduced to what builtinDateBeforeSet uses:
     `none` for kinds NaN/Infinity, else the int64 field. -/
@@ -306,24 +327,29 @@ def applySetter (k : Setter) (e : EcmaTime) (v : List Int) : EcmaTime :=
 def setCore (k : Setter) (tm : GoTime) (vs : List Int) : Int :=
   goUnixMilli (applySetter k (newEcmaTime tm) vs).goTime
 
-/-- setTime (l.107) and builtinDateBeforeSet (l.115) + the setUTC* bodies: (new object state, return value) -/
+/-- the same without the too-large guard (for the composition theorem) -/
+def setCoreU (k : Setter) (tm : GoTime) (vs : List Int) : Int :=
+  goUnixMilli (applySetter k (newEcmaTime tm) vs).goTimeCore
+
+/-- setTime and builtinDateBeforeSet(From) + the setUTC* bodies: (new object state, return value).
+    Order in the code: convert every argument, then the invalid-date test (setUTCFullYear: continue from +0),
+    then the validity of the converted arguments. -/
 def setUTC (k : Setter) (d : DateObj) (args : List FV) : DateObj × Num :=
   match k with
   | .time =>
     let d' := d.set (args.headD .nan)          -- call.Argument(0) is undefined → NaN when absent
     (d', d'.value)
   | _ =>
-    -- setUTCFullYear only: an invalid date restarts from +0 (zero := dateObject{}; zero.Set(0))
-    let d := if k = .year ∧ d.isNaN then newDate zero else d
-    if d.isNaN then (d, none)
+    let args := args.take k.limit
+    let vals := if args.isEmpty then none else numberArgs args
+    if d.isNaN ∧ k ≠ .year then (d, none)
     else
-      let args := args.take k.limit
-      if args.isEmpty then (invalidDateObject, none)
-      else match numberArgs args with
-        | none => (invalidDateObject, none)
-        | some vs =>
-          let d' := d.set (ofInt (setCore k d.time vs))      -- date.SetTime(ecmaTime.goTime())
-          (d', d'.value)
+      let base := if d.isNaN then newDate zero else d      -- nanAsZero: date = dateObject{}; date.Set(0)
+      match vals with
+      | none => (invalidDateObject, none)
+      | some vs =>
+        let d' := base.set (ofInt (setCore k base.time vs))      -- date.SetTime(ecmaTime.goTime())
+        (d', d'.value)
 
 def runSetters (d : DateObj) : List (Setter × List FV) → DateObj × List Num
   | [] => (d, [])
@@ -353,45 +379,25 @@ inductive Outcome where
   | threw
 deriving DecidableEq, Repr
 
-/-- result of a conversion loop: `none` = a valueOf threw, `some none` = the loop stopped at a non-finite number,
-    `some (some vs)` = all converted -/
-abbrev Conv := List Nat × Option (Option (List FV))
+/-- the conversion loop: every argument is converted, in order; `none` = a valueOf threw -/
+abbrev Conv := List Nat × Option (List FV)
 
-/-- the conversion loop of builtinDateBeforeSet: `value.number()` per argument, in order; it returns at the first
-    NaN/±Infinity, leaving later arguments unconverted -/
-def convSetterArgs (as : List Arg) (i : Nat) : Conv :=
+def convArgs (as : List Arg) (i : Nat) : Conv :=
   match as with
-  | [] => ([], some (some []))
+  | [] => ([], some [])
   | a :: rest =>
     let lg := if a.logs then [i] else []
     match a.val? with
     | none => (lg, none)
-    | some x =>
-      if (numberArg x).isNone then (lg, some none)
-      else match convSetterArgs rest (i + 1) with
-        | (l, none) => (lg ++ l, none)
-        | (l, some none) => (lg ++ l, some none)
-        | (l, some (some vs)) => (lg ++ l, some (some (x :: vs)))
+    | some x => match convArgs rest (i + 1) with
+      | (l, none) => (lg ++ l, none)
+      | (l, some vs) => (lg ++ l, some (x :: vs))
 
 /-- a setter called with scripted arguments: (object state, outcome, log of valueOf calls) -/
 def setUTCS (k : Setter) (d : DateObj) (args : List Arg) : DateObj × Outcome × List Nat :=
-  match k with
-  | .time =>
-    match args.head? with
-    | none => let d' := d.set .nan; (d', .ret d'.value, [])
-    | some a => match a.val? with
-      | none => (d, .threw, [0])
-      | some x => let d' := d.set x; (d', .ret d'.value, if a.logs then [0] else [])
-  | _ =>
-    let d := if k = .year ∧ d.isNaN then newDate zero else d      -- the restart from +0 happens BEFORE the conversions
-    if d.isNaN then (d, .ret none, [])                            -- invalid date: no argument is converted
-    else
-      let args := args.take k.limit
-      if args.isEmpty then (invalidDateObject, .ret none, [])
-      else match convSetterArgs args 0 with
-        | (l, none) => (d, .threw, l)
-        | (l, some none) => (invalidDateObject, .ret none, l)
-        | (l, some (some vs)) => let (d', r) := setUTC k d vs; (d', .ret r, l)
+  match convArgs (args.take k.limit) 0 with
+  | (l, none) => (d, .threw, l)                       -- nothing was written to the object yet
+  | (l, some vs) => let (d', r) := setUTC k d vs; (d', .ret r, l)
 
 def runSettersS (d : DateObj) : List (Setter × List Arg) → DateObj × List (Outcome × List Nat)
   | [] => (d, [])
@@ -400,27 +406,11 @@ def runSettersS (d : DateObj) : List (Setter × List Arg) → DateObj × List (O
     let (fin, rs) := runSettersS d' rest
     (fin, (o, l) :: rs)
 
-/-- the `pick` sequence of newDateTime: returns NaN at the first non-finite field, later arguments unconverted -/
-def convPickArgs (as : List Arg) (i : Nat) : Conv :=
-  match as with
-  | [] => ([], some (some []))
-  | a :: rest =>
-    let lg := if a.logs then [i] else []
-    match a.val? with
-    | none => (lg, none)
-    | some x =>
-      if isNaN x || isInf x then (lg, some none)
-      else match convPickArgs rest (i + 1) with
-        | (l, none) => (lg ++ l, none)
-        | (l, some none) => (lg ++ l, some none)
-        | (l, some (some vs)) => (lg ++ l, some (some (x :: vs)))
-
-/-- Date.UTC with scripted arguments (at least two) -/
+/-- Date.UTC with scripted arguments (at least two): all (up to seven) picks first -/
 def newDateTimeS (args : List Arg) : Outcome × List Nat :=
-  match convPickArgs (args.take 7) 0 with
+  match convArgs (args.take 7) 0 with
   | (l, none) => (.threw, l)
-  | (l, some none) => (.ret none, l)
-  | (l, some (some vs)) => (.ret (newDateTime vs), l)
+  | (l, some vs) => (.ret (newDateTime vs), l)
 
 -- ---------------------------------------------------------------- formatting / parsing
 
